@@ -237,7 +237,7 @@ pub fn decode(target: &str, data: &[u8]) -> Vec<(&'static str, Value)> {
                     let facts = gen::realise(&raw_facts(&mut r, &cfg), &cfg);
                     let path = [PathSel::BuilderDefaults, PathSel::Bin(3), PathSel::Bin(1), PathSel::RoundTrip][r.below(4)];
                     let drop_roots = if r.u8() % 8 == 0 { 1 + r.u8() % 3 } else { 0 };
-                    vec![("C19", serde_json::to_value(c19::Case { base: OntCase { facts, path, noise: Default::default() }, drop_roots, setters: if r.u8() % 3 == 0 { 1 + r.u8() % 5 } else { 0 } }).unwrap())]
+                    vec![("C19", serde_json::to_value(c19::Case { base: OntCase { facts, path, noise: Default::default() }, drop_roots, setters: if r.u8() % 3 == 0 { 1 + r.u8() % 7 } else { 0 } }).unwrap())]
                 }
                 _ => {
                     let mut cfg = std_cfg(NameMode::Capped, true);
